@@ -18,7 +18,7 @@ PURE_RULE = ("; `gkh pure` calls the side-effect-free functions of package def (
 
 
 GOLEAN_RULE = ("; `gkh golean` re-translates the decision logic of package def, internal/sortable_task, the whole "
-               "MutationHookTimer (repository/mution_hook_timer.go), the in-memory repository's AddTask / GetById / UpdateById / Cancel / "
+               "MutationHookTimer (repository/mution_hook_timer.go), the observable wrapper (repository/repository.go), the in-memory repository's AddTask / GetById / UpdateById / Cancel / "
                "MarkAsDispatched / MarkAsDone / GetNext / Find / Save / Load and the mutator decoders from the CURRENT "
                "Go sources into Lean (lean/Gk/Gen/*.lean, go/ast, no skipping: an unsupported construct is a broken tie, DIFF "
                "golean) before the audit, and the tie theorems (kind `tie`, Gk/Props/Tie*.lean) prove for all inputs that "
